@@ -72,7 +72,7 @@ NoArg == [z |-> 0]
 
 \* one script line: record it in the state and write it out
 RpVectors(s) ==
-  IF "d" \notin DOMAIN s \/ RpSet = {0} \/ s.op \in {"to_vec", "roundtrip", "render", "build_array", "build_object", "comparable_all"} THEN {<<>>}
+  IF "d" \notin DOMAIN s \/ RpSet = {0} \/ s.op \in {"to_vec", "roundtrip", "render", "build_array", "build_object", "comparable_all", "value_api"} THEN {<<>>}
   ELSE {v \in [1..Len(s.d) -> RpSet] : \A i \in 1..Len(s.d) : v[i] # 0 => ~HasNonFinite(s.d[i])}
 WithRp(s, v) == IF v = <<>> THEN s ELSE [rp |-> v, fl |-> FL] @@ s
 Out(s) ==
@@ -93,6 +93,7 @@ EmitAcc(x) ==
   \/ \E ks \in KeyLists(x) \cup {<<n>> : n \in NameArgs(x)}, c \in {0, 1} : Out(S1("exists_keys", x, [keys |-> ks, all |-> c]))
   \/ \E n \in NameArgs(x) : Out(S1("traverse", x, [pred |-> [eq |-> n]]))
   \/ \E b \in {97, 98, 0} : Out(S1("traverse", x, [pred |-> [has |-> b]]))
+  \/ \E n \in NameArgs(x) : Out(S1("value_api", x, [n |-> n]))
   \/ (~HasNonFinite(x) /\ Out([fl |-> FL] @@ S1("comparable_all", x, NoArg)))
 
 EmitEdit(x) ==
@@ -106,7 +107,7 @@ EmitEdit(x) ==
         Out(S2("object_insert", x, v, [n |-> n, upd |-> u, pre |-> Pre]))
 
 EmitPairs(x, y) ==
-  \/ \E o \in {"compare", "contains", "array_overlap", "comparable2"} : Out(S2(o, x, y, NoArg))
+  \/ \E o \in {"compare", "contains", "array_overlap", "comparable2", "value_api"} : Out(S2(o, x, y, NoArg))
   \/ \E o \in {"concat", "array_intersection", "array_except"} : Out(S2(o, x, y, [pre |-> Pre]))
 
 EmitRender(x) ==
@@ -131,6 +132,29 @@ EmitNum(x) ==
   \/ Out(S1("casts", x, NoArg))
 EmitNumPairs(x, y) == Out([op |-> "num_cmp", a |-> [x |-> NumOf(x), y |-> NumOf(y)]])
 EmitNumDecode == \E p \in NumPayloads : Out([op |-> "num_decode", raw |-> <<p>>, a |-> NoArg])
+
+\* From conversions into Value: signed -> i, unsigned -> u, f32 widened exactly, unit -> null,
+\* iterators -> arrays / objects (keys sorted, last duplicate wins)
+SmallI(v) == \* 8 bytes two's complement of a small Int
+  IF v >= 0 THEN <<0, 0, 0, 0, v \div 16777216, (v \div 65536) % 256, (v \div 256) % 256, v % 256>>
+  ELSE LET m == 0 - (v + 1)
+       IN <<255, 255, 255, 255, 255 - (m \div 16777216), 255 - ((m \div 65536) % 256), 255 - ((m \div 256) % 256), 255 - (m % 256)>>
+ConvCases ==
+  {[k |-> "i8", v |-> x, want |-> NumD(N("i", SmallI(x)))] : x \in {-128, -1, 0, 1, 127}}
+  \cup {[k |-> "i16", v |-> x, want |-> NumD(N("i", SmallI(x)))] : x \in {-32768, -129, 128, 32767}}
+  \cup {[k |-> "i32", v |-> x, want |-> NumD(N("i", SmallI(x)))] : x \in {(0 - 2147483647) - 1, -32769, 0, 32768, 2147483647}}
+  \cup {[k |-> "i64", v |-> x, want |-> NumD(N("i", SmallI(x)))] : x \in {-1, 0, 2147483647}}
+  \cup {[k |-> "u8", v |-> x, want |-> NumD(N("u", SmallI(x)))] : x \in {0, 1, 255}}
+  \cup {[k |-> "u16", v |-> x, want |-> NumD(N("u", SmallI(x)))] : x \in {256, 65535}}
+  \cup {[k |-> "u32", v |-> x, want |-> NumD(N("u", SmallI(x)))] : x \in {65536, 2147483647}}
+  \cup {[k |-> "u64", v |-> x, want |-> NumD(N("u", SmallI(x)))] : x \in {0, 2147483647}}
+  \cup {[k |-> "f32", v |-> 1069547520, want |-> f15], [k |-> "f32", v |-> 1065353216, want |-> f1], [k |-> "f32", v |-> 0, want |-> f0]}
+  \cup {[k |-> "bool", v |-> 1, want |-> True], [k |-> "bool", v |-> 0, want |-> False], [k |-> "unit", v |-> 0, want |-> Null]}
+  \cup {[k |-> "str", v |-> s, want |-> Str(s)] : s \in {<<>>, <<97, 98>>, <<195, 169>>}}
+  \cup {[k |-> "vec_i32", v |-> <<>>, want |-> Arr(<<>>)], [k |-> "vec_i32", v |-> <<1, -1>>, want |-> Arr(<<i1, im1>>)]}
+  \cup {[k |-> "iter_str", v |-> <<ka, kab>>, want |-> Arr(<<sa, sab>>)]}
+  \cup {[k |-> "pairs", v |-> << <<kb, 1>>, <<ka, -1>>, <<kb, 1>> >>, want |-> Obj(<< <<ka, im1>>, <<kb, i1>> >>)]}
+EmitConv == \E c \in ConvCases : Out([op |-> "from_conv", a |-> [conv |-> [k |-> c.k, v |-> c.v], want |-> c.want]])
 
 \* lists of parts for the builders: every short list, in every order, with duplicate keys
 BuildParts == {Null, u256, sab, Arr(<<u1, sab>>), Obj(<< <<ka, Null>> >>)}
@@ -167,7 +191,7 @@ Emit ==
 EmitBuild ==
   /\ stage = "start" /\ Family = "build"
   /\ EmitBuildScripts
-EmitDecode == stage = "start" /\ Family = "num" /\ EmitNumDecode
+EmitDecode == (stage = "start" /\ Family = "num" /\ EmitNumDecode) \/ (stage = "start" /\ Family = "codec" /\ EmitConv)
 Next == PickFirst \/ PickSecond \/ Emit \/ EmitBuild \/ EmitDecode
 Spec == Init /\ [][Next]_vars
 
@@ -223,6 +247,7 @@ GenInv ==
               /\ (NumCmp(a.x, a.y) = 0 /\ a.x.r = a.y.r /\ ~IsNaN(a.x) /\ Sign(a.x) # 0 => a.x.b = a.y.b)
               \* the nearest double never reverses the order
               /\ (IsFiniteNum(a.x) /\ IsFiniteNum(a.y) /\ NumCmp(a.x, a.y) <= 0 => NumCmp(N("f", AsF64(a.x)), N("f", AsF64(a.y))) <= 0)
+         [] op = "from_conv" -> DocOk(a.want)
          [] op = "build_array" -> DocOk(BuildArray(scr.d))
          [] op = "build_object" -> DocOk(BuildObject(a.keys, scr.d))
          [] OTHER -> TRUE
